@@ -98,8 +98,40 @@ def dl(ty, name, cascade=0):
     return 'cw_delete type=%s name=%s cascade=%d' % (ty, hx(name), cascade)
 
 
-def st(ty, name, parent=None):
-    return 'cw_static type=%s name=%s%s' % (ty, hx(name), (' parent=' + hx(parent)) if parent else '')
+def static_text(ty, name, parent=None):
+    """the declaration of a fixture object as configuration text (plain names only: no escaping needed)"""
+    parts = name.split('!')
+    comp = ty in COMPOSITE
+    L = ['object %s "%s" {' % (ty, parts[-1] if comp else name)]
+    if ty in ('Host', 'Service'): L += ['  check_command = "cwcmd"', '  enable_active_checks = false']
+    if ty in ('CheckCommand', 'NotificationCommand', 'EventCommand'): L += ['  command = [ "/bin/true" ]']
+    if comp:
+        hk, sk = ('child_host_name', 'child_service_name') if ty == 'Dependency' else ('host_name', 'service_name')
+        L += ['  %s = "%s"' % (hk, parts[0])]
+        if ty != 'Service' and len(parts) > 2: L += ['  %s = "%s"' % (sk, parts[1])]
+    if ty == 'Notification': L += ['  command = "cwncmd"', '  users = [ "cwuser" ]']
+    if ty == 'Dependency': L += ['  parent_host_name = "%s"' % (parent or parts[0])]
+    if ty == 'Comment': L += ['  author = "cw"', '  text = "t"']
+    if ty == 'Downtime': L += ['  author = "cw"', '  comment = "c"', '  start_time = 2100000000', '  end_time = 2100003600']
+    if ty == 'ScheduledDowntime': L += ['  author = "cw"', '  comment = "c"', '  ranges = { }']
+    if ty == 'TimePeriod': L += ['  ranges = { }']
+    if ty == 'ApiUser': L += ['  password = "pw"']
+    return '\n'.join(L + ['}', ''])
+
+
+def st(ty, name, parent=None, pkg=None):
+    """an object that was NOT created through the API: from the main configuration (pkg None) or DEPLOYED through the
+    config package `pkg` (a file of a stage of that package, compiled with that package name)"""
+    r = 'cw_static type=%s name=%s%s' % (ty, hx(name), (' parent=' + hx(parent)) if parent else '')
+    if pkg is not None:
+        assert all(c.isalnum() or c in '!_-' for c in name)
+        r += ' pkg=%s text=%s' % (hx(pkg) or '-', hx(static_text(ty, name, parent)))
+    return r
+
+
+# valid config package names (ConfigPackageUtility::ValidatePackageName: [A-Za-z0-9_-]+) that are NOT the package `_api`
+# although they begin / end with it, differ in case only, or are a proper prefix of it - and unrelated ones
+FOREIGN_PKGS = ['_api-import', '_api2', '_apiary', '_api_', '_api-', '_API', '_Api', 'x_api', '-_api', '_ap', '_', 'api', 'production', 'director']
 
 KEYWORDS = ['object', 'template', 'include', 'include_recursive', 'include_zones', 'library', 'null', 'true', 'false', 'const', 'var', 'this',
             'globals', 'locals', 'use', 'using', 'namespace', 'default', 'ignore_on_error', 'current_filename', 'current_line', 'apply', 'to',
@@ -635,6 +667,54 @@ def generate(seed, tier):
                        cr('Host', 'k', {'check_command': 'rcc'}, must=True), cr('Service', 'k!s', {'check_command': 'rcc'}, must=True),
                        st('Service', 'k!st'), dl('CheckCommand', 'rcc', 0), dl('CheckCommand', 'rcc', 1),
                        cr('Host', 'k', {'check_command': 'rcc'}, exp='commit'), cr('Host', 'k', valid_attrs('Host'), must=True), dl('Host', 'k', 0)], 'cascade-command'))
+    # K2. "created at runtime" = the package _api EXACTLY.  Objects deployed through OTHER config packages - names that
+    #     begin / end with `_api`, differ in case, are a proper prefix, unrelated names - and from the main configuration:
+    #     every delete (with / without cascade) must be refused, object, item and the file in that package's stage stay;
+    #     a runtime child below such a parent can be deleted; a cascading delete of a runtime parent unregisters a child
+    #     deployed through another package but leaves that package's file alone.  A file lying in the _api package when
+    #     the configuration is loaded (what a restart finds) IS a runtime object: deletable, file removed.
+    pk_types = ['Host', 'HostGroup', 'User', 'CheckCommand', 'TimePeriod', 'Zone']
+    for pi, pkg in enumerate(FOREIGN_PKGS):
+        ty = pk_types[pi % len(pk_types)]
+        L = [G0, cr('Host', 'rh', valid_attrs('Host'), must=True),
+             st('Host', 'ph', pkg=pkg), st('Service', 'ph!ps', pkg=pkg), st('Service', 'rh!fs', pkg=pkg)]
+        if ty != 'Host': L.append(st(ty, 'pobj', pkg=pkg))
+        L += [cr('Service', 'ph!rs', valid_attrs('Service'), must=True), cr('Comment', 'ph!ps!rc', valid_attrs('Comment'), must=True)]
+        L += [st('Comment', 'ph!fc', pkg=pkg), st('Host', 'mh')]
+        L += [dl('Host', 'ph', 0), dl('Host', 'ph', 1), dl('Service', 'ph!ps', 0), dl('Service', 'ph!ps', 1),
+              dl('Comment', 'ph!fc', 0), dl('Comment', 'ph!fc', 1), dl('Service', 'rh!fs', 0), dl('Service', 'rh!fs', 1),
+              dl('Host', 'mh', 0), dl('Host', 'mh', 1)]
+        if ty != 'Host': L += [dl(ty, 'pobj', 0), dl(ty, 'pobj', 1)]
+        L += [cr('Host', 'ph', valid_attrs('Host')),                       # the name is taken: refused, the package's file untouched
+              dl('Comment', 'ph!ps!rc', 0), dl('Service', 'ph!rs', 1),      # runtime children of deployed parents: deletable
+              dl('Host', 'rh', 0), dl('Host', 'rh', 1),                     # cascade unregisters rh!fs, its file stays in the other package
+              cr('Host', 'rh', valid_attrs('Host'), must=True), dl('Host', 'rh', 0)]
+        cases.append(case(L, 'pkg-foreign'))
+    for ty in pk_types:
+        nm = 'ao'
+        cases.append(case([G0, st(ty, nm, pkg='_api'), cr(ty, nm, valid_attrs(ty)), dl(ty, nm, 0), dl(ty, nm, 0),
+                           cr(ty, nm, valid_attrs(ty), must=True), dl(ty, nm, 1)], 'pkg-api-file'))
+    for i in range(40 * scale):
+        pk = rnd.sample(FOREIGN_PKGS, 2) + ['_api', None]
+        L = [G0]
+        objs = []
+        for h in ('qa', 'qb', 'qc'):
+            w = rnd.choice(pk + ['create'])
+            L.append(cr('Host', h, valid_attrs('Host'), must=True) if w == 'create' else st('Host', h, pkg=w))
+            objs.append(('Host', h))
+            for sv in rnd.sample(['s1', 's2'], rnd.randint(0, 2)):
+                w = rnd.choice(pk + ['create'])
+                L.append(cr('Service', h + '!' + sv, valid_attrs('Service'), must=True) if w == 'create' else st('Service', h + '!' + sv, pkg=w))
+                objs.append(('Service', h + '!' + sv))
+                if rnd.random() < 0.4:
+                    w = rnd.choice(pk + ['create'])
+                    t3 = rnd.choice(('Comment', 'Downtime', 'Notification'))
+                    L.append(cr(t3, h + '!' + sv + '!x', valid_attrs(t3), must=True) if w == 'create' else st(t3, h + '!' + sv + '!x', pkg=w))
+                    objs.append((t3, h + '!' + sv + '!x'))
+        for _ in range(rnd.randint(3, 8)):
+            t, n = rnd.choice(objs)
+            L.append(dl(t, n, rnd.randint(0, 1)))
+        cases.append(case(L, 'pkg-random'))
     # L. failures of every type: invalid attribute, non-configurable attribute, missing parent, bad name
     for ty in SIMPLE_TYPES + COMPOSITE:
         va = valid_attrs(ty, 'fp')
